@@ -361,3 +361,23 @@ def toyH (b : Bytes) : Bytes := (b ++ List.replicate 32 0).take 31 ++ [UInt8.ofN
 theorem toyH_len (b : Bytes) : (toyH b).length = 32 := by simp [toyH]
 
 end NeoModel.Mpt
+
+namespace NeoModel.Mpt
+
+/-- reading a key from a trie reopened from its root hash over a store that holds (at least) the
+flushed nodes: `walk` is `getWithPath` starting at `HashNode(root)` with lazy loading. -/
+theorem reopen_get {H : Bytes → Bytes} (h32 : ∀ b, (H b).length = 32) (t : Node) (hb : Bounded t)
+    (hne : t.isEmpty = false) (store : List Bytes) (hst : ∀ e ∈ nodeEncs H t, e ∈ store)
+    (hcf : CollFree H store) (p : Path) (v : Val) :
+    (∀ fuel, walk H store fuel (hash H t) p = .found v → lookup t p = some v) ∧
+    (lookup t p = some v → ∃ n, ∀ fuel, n ≤ fuel → walk H store fuel (hash H t) p = .found v) := by
+  refine ⟨fun fuel h => walk_sound hcf h32 store (fun _ h => h) t fuel p v hb hne hst h, ?_⟩
+  intro hv
+  have hsome : (getProof H t p).isSome = true := by rw [getProof_isSome, hv]; rfl
+  obtain ⟨ps, hps⟩ := Option.isSome_iff_exists.mp hsome
+  refine ⟨ps.length, fun fuel hf => ?_⟩
+  obtain ⟨x, hx, hw⟩ := walk_complete hcf h32 t fuel p ps hb hps
+    (fun e he => hst e (getProof_subset H t p ps hps e he)) hf
+  rw [hv] at hx; cases hx; exact hw
+
+end NeoModel.Mpt
